@@ -97,6 +97,8 @@ prop("C14", "exploration",
      [
          {"harness": "reg", "args": {"quick": [], "thorough": []}, "timeout": {"quick": 300, "thorough": 1800}},
          {"harness": "reg", "tags": ["gc_opt"], "args": {"quick": ["--n", "1200"], "thorough": ["--n", "20000"]}, "timeout": {"quick": 600, "thorough": 3000}},
+         {"harness": "eng", "flavour": "shim", "args": {"quick": ["--mode", "c14"], "thorough": ["--mode", "c14"]}, "timeout": {"quick": 600, "thorough": 1800}},
+         {"harness": "eng", "flavour": "shim", "tags": ["gc_opt"], "args": {"quick": ["--mode", "c14"], "thorough": ["--mode", "c14"]}, "timeout": {"quick": 600, "thorough": 1800}},
      ],
      "Reference-model monitor over the package-internal registry in both build variants; lookups, counts, stored positions (fd2gfd/table/gfd agree) and iteration are "
      "checked after every step.",
@@ -132,7 +134,9 @@ prop("C12", "exploration",
          {"harness": "pool", "asan": True, "tiers": ["thorough"], "args": {"thorough": ["--mode", "all", "--n", "3000"]}, "timeout": {"thorough": 3400}, "crash_is_violation": True},
          {"harness": "pool", "tiers": ["thorough"], "args": {"thorough": ["--mode", "huge"]}, "timeout": {"thorough": 1200}},
          {"harness": "eng", "flavour": "shim+pool", "args": {"quick": ["--mode", "c02", "--n", "5"], "thorough": ["--mode", "c02", "--n", "40"]}, "timeout": {"quick": 600, "thorough": 3400}},
-         {"harness": "eng", "flavour": "shim+pool", "tiers": ["thorough"], "args": {"thorough": ["--mode", "c01", "--n", "40"]}, "timeout": {"thorough": 3400}},
+         {"harness": "eng", "flavour": "shim+pool", "args": {"quick": ["--mode", "c01", "--n", "3"], "thorough": ["--mode", "c01", "--n", "40"]}, "timeout": {"quick": 600, "thorough": 3400}},
+         {"harness": "eng", "flavour": "shim+pool", "args": {"quick": ["--mode", "c08", "--n", "4"], "thorough": ["--mode", "c08", "--n", "40"]}, "timeout": {"quick": 600, "thorough": 3400}},
+         {"harness": "eng", "flavour": "shim+pool", "args": {"quick": ["--mode", "c17"], "thorough": ["--mode", "c17"]}, "timeout": {"quick": 600, "thorough": 3400}},
          {"harness": "eng", "flavour": "shim+pool", "tiers": ["thorough"], "args": {"thorough": ["--mode", "c04", "--n", "40"]}, "timeout": {"thorough": 3400}},
      ],
      "Ledger monitor over the real pools plus Go's checkptr/ASan instrumentation: aliasing is a relation between two live slices, so it is checked against the set of outstanding "
@@ -172,6 +176,7 @@ prop("C17", "exploration",
          {"harness": "addr", "wrap": ["/verif/selftest/netns_wrap.sh"], "args": {"quick": ["--n", "60000"], "thorough": ["--n", "600000"]}, "timeout": {"quick": 300, "thorough": 1800}},
          {"harness": "eng", "flavour": "shim", "args": {"quick": ["--mode", "c17"], "thorough": ["--mode", "c17"]}, "timeout": {"quick": 600, "thorough": 1800}},
          {"harness": "eng", "flavour": "shim", "race": True, "tiers": ["thorough"], "args": {"thorough": ["--mode", "c17"]}, "timeout": {"thorough": 1800}},
+         {"harness": "eng", "flavour": "shim", "args": {"quick": ["--mode", "c08", "--n", "4"], "thorough": ["--mode", "c08", "--n", "40"]}, "timeout": {"quick": 600, "thorough": 1800}},
      ],
      "Round-trip oracle over pkg/socket's conversion functions; the truthful-reporting part (RemoteAddr/LocalAddr inside callbacks under churn) is checked by the engine harness jobs "
      "of this property.",
